@@ -32,7 +32,8 @@ def s_run(draw):
     kind = draw(st.sampled_from(["return", "raise", "fire", "fail", "never", "fire", "fail"]))
     step = {"op": "run", "kind": kind, "timeout": draw(st.sampled_from([1, 2, 3, 5, 0.5, 2.5])),
             # f fires the Deferred an earlier, unfinished run of this spinner was waiting for (if there is one)
-            "fire_old": draw(st.sampled_from([False, False, False, True])),
+            "fire_old": draw(st.sampled_from([False, False, False, "callback", "errback"])),
+            "extra_before": draw(st.booleans()),       # the extra delayed calls exist before run() is called, not made by f
             "t": draw(st.sampled_from(TIMES)) if kind in ("fire", "fail") else None,
             "value": draw(st.sampled_from([None, 0, "v", (1, 2)])),
             "extra": draw(st.lists(st.sampled_from(TIMES + [7]), max_size=3)),
@@ -139,9 +140,13 @@ def run_case(spec):
                 step_ = step
                 if step_.get("fire_old") and unfinished:
                     fired_old.append(True)
-                    unfinished.pop(0).callback("STALE")
-                for j, dly in enumerate(step["extra"]):
-                    reactor.callLater(dly, fired_extra.append, j)
+                    if step_["fire_old"] == "errback":
+                        unfinished.pop(0).errback(UserError("STALE failure of an earlier run"))
+                    else:
+                        unfinished.pop(0).callback("STALE")
+                if not step.get("extra_before"):
+                    for j, dly in enumerate(step["extra"]):
+                        reactor.callLater(dly, fired_extra.append, j)
                 for j in range(step["selectables"]):
                     reactor.addReader(object())
                 for _ in range(step["reenter"]):
@@ -165,6 +170,9 @@ def run_case(spec):
                 return d
             if step["interrupt"] is not None:
                 reactor.interrupt_at(base + step["interrupt"])
+            if step.get("extra_before") and not junk_pending:
+                for j, dly in enumerate(step["extra"]):
+                    reactor.callLater(dly, fired_extra.append, j)
             fired_from = len(reactor.fired)
             try:
                 res = ("value", spinner.run(step["timeout"], f, 1, "two", k=3))
